@@ -1,8 +1,422 @@
-//! stub — to be implemented
-use crate::common::{Ctx, Report};
+//! C19 — UDP flows are sticky, isolated, bounded and torn down once.
+//!
+//! Part (a): sans-io lab on `sozu_lib::protocol::udp::UdpManager`. A seeded workload of concrete
+//! operations (client / backend datagrams, backend resolutions incl. stale ones, virtual clock
+//! advances with an emulated shell timer, cap / cluster / rx-size reconfiguration, drain, abort,
+//! close_all, listener rebuild) is applied to the real manager; after every operation the whole
+//! `Output` queue is drained and folded into a reference model written from the property
+//! statement (flows keyed by the affinity key in force, identified by the `FlowId` announced in
+//! `SelectBackend`, bound by `OpenUpstream`, ended by `CloseFlow`). Payloads are self-describing
+//! (source, per-source sequence number, keystream filler), so every `SendToBackend` identifies
+//! the datagram it carries independently of the operation that triggered it.
+//!
+//! Part (b) (real sockets through a worker) is not in this file: `run` only calls `run_manager`.
 
-pub fn run(_ctx: &Ctx) -> Report {
-    let mut rep = Report::new("exploration", "not implemented");
-    rep.broken("check not implemented yet");
+mod lab;
+
+use serde_json::{Value, json};
+
+use crate::common::{Ctx, Report, Rng, guard, par_cases};
+use lab::{Cfg, Init, Lab, Op, Viol};
+
+const TIMEOUTS_MS: &[u64] = &[40, 250, 1000, 3000, 30000];
+const REQUESTS: &[u32] = &[0, 0, 0, 1, 2, 3, 8];
+const RESPONSES: &[u32] = &[0, 0, 0, 1, 1, 2, 5];
+const MAX_RX: &[usize] = &[20, 64, 512, 1500, 9000];
+pub(crate) const N_CLUSTERS: u8 = 2;
+pub(crate) const N_BACKENDS: u8 = 3;
+
+fn gen_cfg(rng: &mut Rng, base: Option<&Cfg>) -> Cfg {
+    let mut c = match base {
+        Some(b) => b.clone(),
+        None => Cfg {
+            cluster: Some(0),
+            with_port: rng.bool(),
+            responses: 0,
+            requests: 0,
+            front_ms: 1000,
+            back_ms: 1000,
+            send_pp: false,
+            every: false,
+        },
+    };
+    let fresh = base.is_none();
+    if fresh || rng.chance(1, 2) {
+        c.cluster = if !fresh && rng.chance(1, 14) { None } else { Some(rng.below(N_CLUSTERS as u64) as u8) };
+    } else if c.cluster.is_none() {
+        c.cluster = Some(rng.below(N_CLUSTERS as u64) as u8);
+    }
+    if !fresh && rng.chance(3, 10) {
+        c.with_port = !c.with_port;
+    }
+    if fresh || rng.chance(1, 2) {
+        c.requests = *rng.pick(REQUESTS);
+    }
+    if fresh || rng.chance(1, 2) {
+        c.responses = *rng.pick(RESPONSES);
+    }
+    if fresh || rng.chance(1, 2) {
+        c.front_ms = *rng.pick(TIMEOUTS_MS);
+        c.back_ms = if rng.chance(3, 5) { c.front_ms } else { *rng.pick(TIMEOUTS_MS) };
+    }
+    if fresh || rng.chance(1, 2) {
+        c.send_pp = rng.bool();
+        c.every = rng.bool();
+    }
+    c
+}
+
+fn gen_init(rng: &mut Rng, strict: bool) -> Init {
+    Init {
+        v6: rng.chance(3, 20),
+        n_ips: rng.range(2, 4) as u8,
+        n_ports: rng.range(1, 4) as u8,
+        max_flows: rng.range(1, 8) as usize,
+        max_rx: if rng.chance(2, 3) { 1500 } else { *rng.pick(MAX_RX) },
+        cfg: gen_cfg(rng, None),
+        hash_seed: rng.next_u64(),
+        immediate_pct: *rng.pick(&[100u8, 85, 60, 30]),
+        strict,
+    }
+}
+
+/// generator-side bookkeeping (the "shell" of the lab: outstanding backend resolutions)
+#[derive(Default)]
+struct Gen {
+    tickets: Vec<(usize, u8, u8, u64)>,   // (flow id, cluster, backend index, select key) not yet delivered
+    delivered: Vec<(usize, u8, u8, u64)>, // ring of delivered resolutions (re-delivery = duplicates)
+    drain_countdown: Option<u32>,
+}
+
+fn client_len(rng: &mut Rng, max_rx: usize) -> usize {
+    match rng.below(100) {
+        0 => 0,
+        1 | 2 => max_rx + rng.range(1, 10) as usize,
+        3..=72 => rng.range(lab::CH as u64, 80) as usize,
+        _ => rng.boundary_size(&[lab::CH, 28, 52, 64, 512, max_rx], max_rx.max(lab::CH)),
+    }
+}
+
+fn gen_next(rng: &mut Rng, lab: &mut Lab, g: &mut Gen) -> Op {
+    // the shell's reaction to a SelectBackend seen in the previous batch
+    if let Some((id, cluster, hash)) = lab.last_select.take() {
+        let cl = cluster.strip_prefix('c').and_then(|s| s.parse::<u8>().ok()).unwrap_or(0);
+        let b = (hash % N_BACKENDS as u64) as u8;
+        let r = rng.below(100) as u8;
+        if r < lab.init.immediate_pct {
+            g.delivered.push((id, cl, b, hash));
+            return Op::Resolve { id, cluster: cl, b, key: hash };
+        }
+        match rng.below(20) {
+            0 => return Op::Abort { id },  // shell could not resolve / connect
+            1 => {}                        // never resolved: the flow idles out while awaiting
+            _ => g.tickets.push((id, cl, b, hash)),
+        }
+    }
+    if let Some(n) = g.drain_countdown {
+        if n == 0 {
+            g.drain_countdown = None;
+            return Op::Rebuild;
+        }
+        g.drain_countdown = Some(n - 1);
+    }
+    if lab.cfg.cluster.is_none() && rng.chance(3, 10) {
+        let c = gen_cfg(rng, Some(&lab.cfg));
+        return Op::SetCluster(c);
+    }
+    let live = lab.live_ids();
+    let w = rng.below(1000);
+    match w {
+        0..=409 => Op::Client {
+            ip: rng.below(lab.init.n_ips as u64) as u8,
+            port: rng.below(lab.init.n_ports as u64) as u8,
+            len: client_len(rng, lab.max_rx),
+        },
+        410..=579 => {
+            let est = lab.established_ids();
+            let id = match rng.below(20) {
+                0..=14 if !est.is_empty() => *rng.pick(&est),
+                15 | 16 if !live.is_empty() => *rng.pick(&live),
+                17 | 18 if !lab.recently_closed.is_empty() => *rng.pick(&lab.recently_closed),
+                _ => rng.below(lab.cap as u64 + 3) as usize,
+            };
+            let len = match rng.below(50) {
+                0 => 0,
+                1 => rng.range(1, lab::BH as u64 - 1) as usize,
+                2 => lab.max_rx + rng.range(1, 10) as usize,
+                3..=40 => rng.range(lab::BH as u64, 90) as usize,
+                _ => rng.boundary_size(&[lab::BH, 64, 512, lab.max_rx], lab.max_rx.max(lab::BH)),
+            };
+            Op::Backend { id, len, answer: rng.chance(3, 4) }
+        }
+        580..=679 => {
+            let r = rng.below(20);
+            if r < 13 && !g.tickets.is_empty() {
+                let i = rng.usize_below(g.tickets.len());
+                let (id, cluster, b, key) = g.tickets.swap_remove(i);
+                g.delivered.push((id, cluster, b, key));
+                if g.delivered.len() > 16 {
+                    g.delivered.remove(0);
+                }
+                Op::Resolve { id, cluster, b, key }
+            } else if r < 16 && !live.is_empty() {
+                // late duplicate towards ANOTHER backend for a live flow
+                Op::Resolve { id: *rng.pick(&live), cluster: rng.below(N_CLUSTERS as u64) as u8, b: rng.below(N_BACKENDS as u64) as u8, key: 0 }
+            } else if r < 18 && !g.delivered.is_empty() {
+                let (id, cluster, b, key) = *rng.pick(&g.delivered);
+                Op::Resolve { id, cluster, b, key }
+            } else {
+                Op::Resolve { id: rng.below(lab.cap as u64 + 3) as usize, cluster: rng.below(N_CLUSTERS as u64) as u8, b: rng.below(N_BACKENDS as u64) as u8, key: 0 }
+            }
+        }
+        680..=809 => {
+            let jitter = if rng.chance(7, 10) { 0 } else { rng.range(1, 5) };
+            let ms = match rng.below(20) {
+                0..=7 => rng.range(1, 30),
+                8..=12 => rng.range(1, lab.cfg.front_ms * 3 / 2 + 1),
+                13..=16 => match lab.shell_timer {
+                    Some(d) if d >= lab.now_ms => (d - lab.now_ms + rng.below(3)).saturating_sub(1).max(1),
+                    _ => rng.range(1, 50),
+                },
+                17 => lab.cfg.front_ms,
+                18 => lab.cfg.back_ms,
+                _ => 60_000,
+            };
+            Op::Advance { ms, jitter }
+        }
+        810..=829 => Op::SpuriousTimeout,
+        830..=869 => {
+            let n = if !live.is_empty() && rng.bool() {
+                rng.below(live.len() as u64) as usize
+            } else {
+                rng.range(0, 10) as usize
+            };
+            Op::SetMaxFlows(n)
+        }
+        870..=919 => Op::SetCluster(gen_cfg(rng, Some(&lab.cfg))),
+        920..=929 => Op::SetMaxRx(*rng.pick(MAX_RX)),
+        930..=959 => {
+            let id = if !live.is_empty() && rng.chance(4, 5) { *rng.pick(&live) } else { rng.below(lab.cap as u64 + 3) as usize };
+            Op::Abort { id }
+        }
+        960..=969 => Op::CloseAll,
+        970..=976 if g.drain_countdown.is_none() && !lab.draining => {
+            g.drain_countdown = Some(rng.range(5, 80) as u32);
+            Op::Drain
+        }
+        _ => Op::Advance { ms: rng.range(1, 10), jitter: 0 },
+    }
+}
+
+/// apply one op under a panic guard; a panic inside /repo becomes the lab's violation
+fn apply_guarded(lab: &mut Lab, op: &Op) -> Result<(), String> {
+    match guard(|| lab.apply(op)) {
+        Ok(()) => Ok(()),
+        Err(p) if p.in_sozu() => {
+            lab.viol = Some(Viol {
+                sig: p.signature(),
+                what: format!("sozu panicked: {} at {}", p.message, p.location),
+                detail: json!({"panic": p.message, "location": p.location}),
+                step: lab.step,
+            });
+            Ok(())
+        }
+        Err(p) => Err(format!("harness panic: {} at {}", p.message, p.location)),
+    }
+}
+
+/// run a fixed op list on a fresh lab; returns the lab (with its first violation, if any)
+fn run_ops(init: &Init, ops: &[Op], trace: bool) -> Result<Lab, String> {
+    let mut lab = Lab::new(init.clone(), trace);
+    for op in ops {
+        apply_guarded(&mut lab, op)?;
+        if lab.viol.is_some() {
+            break;
+        }
+    }
+    Ok(lab)
+}
+
+/// delta-debugging on the concrete op list: keep the same violation signature
+fn shrink(init: &Init, ops: &[Op], sig: &str) -> Vec<Op> {
+    let mut ops: Vec<Op> = ops.to_vec();
+    let mut budget = 600u32;
+    let fails = |cand: &[Op], budget: &mut u32| -> Option<usize> {
+        if *budget == 0 {
+            return None;
+        }
+        *budget -= 1;
+        match run_ops(init, cand, false) {
+            Ok(l) => match &l.viol {
+                Some(v) if v.sig == sig => Some(v.step),
+                _ => None,
+            },
+            Err(_) => None,
+        }
+    };
+    let mut chunk = (ops.len() / 2).max(1);
+    loop {
+        let mut progress = false;
+        let mut i = 0;
+        while i < ops.len() && budget > 0 {
+            let end = (i + chunk).min(ops.len());
+            let mut cand = ops[..i].to_vec();
+            cand.extend_from_slice(&ops[end..]);
+            if let Some(step) = fails(&cand, &mut budget) {
+                cand.truncate(step);
+                ops = cand;
+                progress = true;
+            } else {
+                i = end;
+            }
+        }
+        if budget == 0 || (chunk == 1 && !progress) {
+            break;
+        }
+        chunk = (chunk / 2).max(1);
+    }
+    ops
+}
+
+fn ops_json(ops: &[Op]) -> Vec<Value> {
+    ops.iter().map(|o| Value::String(o.describe())).collect()
+}
+
+fn run_case(ctx: &Ctx, case: u64, rep: &mut Report) {
+    let mut rng = Rng::for_case(ctx.seed, 19, case);
+    let init = gen_init(&mut rng, ctx.opt("strict").is_some());
+    let n_steps = ctx.opt_u64("steps", 2000) as usize;
+    let mut lab = Lab::new(init.clone(), false);
+    let mut g = Gen::default();
+    let mut ops: Vec<Op> = Vec::with_capacity(n_steps + 4);
+    let mut shape: Vec<u8> = Vec::with_capacity(n_steps + 16);
+    shape.extend_from_slice(&[init.v6 as u8, init.n_ips, init.n_ports, init.max_flows as u8, init.cfg.with_port as u8]);
+    for i in 0..n_steps + 2 {
+        let op = if i < n_steps {
+            gen_next(&mut rng, &mut lab, &mut g)
+        } else if i == n_steps {
+            // epilogue: everything must idle out through the (emulated) shell timer
+            Op::Advance { ms: 200_000, jitter: 0 }
+        } else {
+            Op::CloseAll
+        };
+        shape.push(op.kind());
+        ops.push(op);
+        if let Err(e) = apply_guarded(&mut lab, ops.last().unwrap()) {
+            rep.broken(&format!("case {case}: {e}"));
+            return;
+        }
+        if lab.viol.is_some() {
+            break;
+        }
+    }
+    if lab.viol.is_none() && lab.live_ids().len() > 0 {
+        lab.viol = Some(Viol { sig: "teardown/flows_left_after_final_close_all".into(), what: "live flows remain after the epilogue".into(), detail: json!({}), step: lab.step });
+    }
+    for (k, n) in &lab.stats {
+        rep.obs(k, *n);
+    }
+    for (k, n) in &lab.maxes {
+        rep.obs_max(k, *n);
+    }
+    rep.obs("steps", lab.step as u64);
+    let nontrivial = lab.stat("flows_created") >= 2 && lab.stat("flows_closed") >= 1;
+    rep.case_bytes(&shape, nontrivial);
+
+    if let Some(v) = lab.viol.take() {
+        let small = shrink(&init, &ops, &v.sig);
+        let (trace, v2) = match run_ops(&init, &small, true) {
+            Ok(mut l) => (l.trace.take().unwrap_or_default(), l.viol.take()),
+            Err(_) => (vec![], None),
+        };
+        let shown = v2.as_ref().filter(|x| x.sig == v.sig).unwrap_or(&v);
+        let tail: Vec<Value> = ops_json(&ops[ops.len().saturating_sub(40)..]);
+        rep.violation(
+            &v.sig,
+            &shown.what,
+            json!({
+                "case": case, "seed": ctx.seed, "steps_opt": n_steps,
+                "init": init.to_json(),
+                "violating_step_in_full_run": v.step, "ops_in_full_run": ops.len(),
+                "last_ops_of_full_run": tail,
+                "minimised_ops": ops_json(&small),
+                "minimised_trace (op => outputs)": trace,
+                "oracle": shown.detail,
+                "payloads": "client datagram #seq of ipI:portP with len L = lab::client_payload(I,P,seq,L): 'C19c' I P seq(be32) len(be32) + keystream; client addresses 10.0.0.(1+I):(4000+P) / [fd00::(1+I)]:(4000+P); backend cC-bB = 192.168.C.(1+B):(5300+B) / [fd01::C:(1+B)]:(5300+B)",
+                "what_in_full_run": v.what,
+            }),
+        );
+    } else if case < 2 {
+        let sample_ops = &ops[..ops.len().min(30)];
+        let tr = run_ops(&init, sample_ops, true).ok().and_then(|mut l| l.trace.take()).unwrap_or_default();
+        rep.sample(json!({"case": case, "init": init.to_json(), "first_ops_trace": tr}));
+    }
+}
+
+const REQUIRED: &[&str] = &[
+    "flows_created",
+    "flows_created_affinity_source_ip",
+    "flows_created_affinity_source_ip_port",
+    "flows_closed_idle",
+    "flows_closed_requests_reached",
+    "flows_closed_responses_reached",
+    "flows_closed_abort",
+    "flows_closed_close_all",
+    "sheds_at_cap",
+    "sheds_while_draining",
+    "existing_flow_served_at_or_over_cap",
+    "cap_shrinks_below_live_count",
+    "reconfigurations",
+    "affinity_mode_switches_with_live_flows",
+    "stale_resolves_for_closed_flow",
+    "late_resolves_for_established_flow",
+    "send_to_backend_verified",
+    "send_to_client_verified",
+    "ppv2_headers_verified_first_only",
+    "ppv2_headers_verified_every_datagram",
+    "ppv2_absence_verified",
+    "shell_timer_firings",
+    "idle_deadline_upper_bound_checks",
+    "buffered_while_awaiting_backend",
+    "datagrams_on_same_flow_from_several_ports",
+];
+
+/// Part (a): the sans-io lab.
+pub fn run_manager(ctx: &Ctx, rep: &mut Report) {
+    rep.assume("idle teardown: a flow is idle when no datagram moved in either direction (flow.rs CloseReason::Idle; doc/configure.md: 'reaped once it has been idle for this long'); the documentation gives two timeouts (front/back) for one deadline, so the oracle accepts an idle close from (last accepted datagram + min(front,back)) and demands it by (last datagram seen + max(front,back)) once the emulated shell timer (armed from ArmTimer outputs only) has fired; with front == back (60% of configurations) the deadline is exact");
+    rep.assume("a datagram that is dropped is not a violation (statement: only duplication, merge, truncation, reordering, misdelivery are); drops are counted by reason, unexplained ones under exempt_*");
+    rep.assume("SOURCE_IP affinity: the client is the source IP (doc/configure.md: 'pins every port from one client to one backend'); replies and the PROXY v2 source use the port that created the flow; delivering a reply to another port of the same IP than the one that asked is counted (exempt_reply_to_other_port_of_same_ip), not judged");
+    rep.assume("a cap change below the live count must not close live flows (protocol/udp/mod.rs ConfigEvent::SetMaxFlows: 'Shrinking does not evict existing flows; it only sheds future ones'); live > cap is therefore accepted after a shrink and the cap is enforced at admission");
+    rep.assume("flow identity is the FlowId of SelectBackend/OpenUpstream/CloseFlow (documented as reused after close); a BackendResolved naming a recycled id cannot be told apart by the manager and is counted (exempt_stale_resolve_bound_to_recycled_id), not judged");
+    rep.assume("BackendDatagram carries a FlowId, not an address: 'datagram from a backend that is not the flow's' is only expressible for closed / unbound / unknown ids here; the address check belongs to part (b)");
+    if let Some(path) = &ctx.replay {
+        let v: Value = serde_json::from_str(&std::fs::read_to_string(path).unwrap_or_default()).unwrap_or(Value::Null);
+        let cases: Vec<u64> = v["witnesses"].as_array().map(|a| a.iter().filter_map(|w| w["case"].as_u64()).collect()).unwrap_or_default();
+        // same seed (and history length) as the run that wrote the file
+        let mut rctx = ctx.clone();
+        if let Some(seed) = v["seed"].as_u64() {
+            rctx.seed = seed;
+        }
+        if let Some(steps) = v["witnesses"][0]["steps_opt"].as_u64() {
+            rctx.opts.entry("steps".into()).or_insert(steps.to_string());
+        }
+        for c in cases {
+            run_case(&rctx, c, rep);
+        }
+        return;
+    }
+    for k in REQUIRED {
+        rep.require(k);
+    }
+    let n = ctx.opt_u64("cases", ctx.tier.pick(20_000, 2_000_000));
+    par_cases(ctx, rep, n, |i, r| run_case(ctx, i, r));
+}
+
+pub fn run(ctx: &Ctx) -> Report {
+    let mut rep = Report::new(
+        "exploration",
+        "seeded histories of ~2000 concrete operations on one UdpManager (client datagrams from <=4 IPs x <=4 ports, backend datagrams on live/closed/unbound ids, immediate/late/duplicate/stale BackendResolved, clock advances through an emulated shell timer incl. exact deadlines, SetMaxFlows below the live count, SetCluster incl. affinity-mode flips and empty cluster, SetMaxRxDatagramSize, Drain + rebuild, abort_flow, close_all; IPv4 and IPv6; PPv2 off/first/every; requests/responses limits); every Output is folded into a reference model of flows; a case is non-trivial when it created >= 2 flows and closed >= 1; distinct = distinct (scenario, op-kind sequence)",
+    );
+    run_manager(ctx, &mut rep);
     rep
 }
